@@ -25,8 +25,13 @@ def _scaled(expr, fname, s):
     return expr.subs(reps, simultaneous=True)
 
 
+def eq0(expr):
+    """expr == 0 as a rational function (numerator of the combined fraction expands to 0)."""
+    return sp.expand(sp.numer(sp.together(expr))) == 0
+
+
 def run(rep: core.Report):
-    rep.rule("R08a", "Wang method, compiled kernel: the addend to the force constants is nac_factor/N (v.Z_i)_a (v.Z_j)_b / (v.eps.v) with v the Cartesian q (or the direction at the zone centre): documented closed form, homogeneous of degree 0 in v (independent of the length of the direction), bilinear in the Born charges (zero charges: no correction)", 8)
+    rep.rule("R08a", "Wang method, compiled kernel: the addend to the force constants is nac_factor/N (v.Z_i)_a (v.Z_j)_b / (v.eps.v) with v the Cartesian q (or the direction at the zone centre): documented closed form, homogeneous of degree 0 in v (independent of the length of the direction), bilinear in the Born charges (zero charges: no correction)", 7)
     rep.rule("R08b", "Wang method, Python fallback: same closed form (np.dot(q, born) contracts the same Born axis as the kernel, outer product per atom pair, constant = unit 4 pi / V / (q.eps.q), addend / N)", 4)
     rep.rule("R08c", "the Wang addend is the same for all supercell images of a primitive atom (its subscripts do not involve the supercell atom or its lattice vector): necessary for the correction to cancel at non-zero commensurate q", 2)
     rep.rule("R08d", "Gonze-Lee method: the G + q = 0 term along a direction n is n_a n_b / (n.eps.n) (degree 0 in n), absent without a direction; dd is produced from the bare reciprocal sum only through multiply_borns, which is bilinear in the Born charges", 5)
@@ -52,24 +57,30 @@ def run(rep: core.Report):
         qname = cast.ref_name(cast.strip(args[3])) or cast.text(args[3])
         factor = ctx.expr(args[2])
         factor = factor.subs({x: sp.Function(x.func.__name__)(*x.args) for x in factor.atoms(sp.Function)})
-        for (a, b) in ((0, 0), (0, 1), (2, 1)):
-            e = cs.cell("charge_sum", i * n + j, a, b)
-            e = e.subs(sp.Symbol("factor"), factor)
-            e = e.subs({x: sp.Function(qname)(*x.args) for x in e.atoms(sp.Function) if x.func.__name__ == "q_cart"})
-            v = [sp.Function(qname)(k) for k in range(3)]
-            Z = sp.Function("born")
-            want = sp.Symbol("nac_factor") / N * sum(v[k] * Z(i, k, a) for k in range(3)) * sum(v[k] * Z(j, k, b) for k in range(3)) / sum(v[p] * eps(p, q) * v[q] for p in range(3) for q in range(3))
-            ok_form = sp.simplify(e - want) == 0
-            ok_deg = sp.simplify(_scaled(e, qname, s) - e) == 0
-            ok_born = sp.simplify(_scaled(e, "born", s) - s**2 * e) == 0
-            line = tu.line(c)
-            if (a, b) == (0, 1):
-                rep.instance("R08a", DYN, "get_dynmat_want", f"charge_sum[i, j][{a}][{b}] with v = {qname}: documented closed form", ok_form,
-                             f"the addend is {e}, not nac_factor/N (v.Z_i)_a (v.Z_j)_b / (v.eps.v)", line=line, sample={"vector": qname, "element": str(e)[:300]})
-            rep.instance("R08a", DYN, "get_dynmat_want", f"charge_sum[i, j][{a}][{b}] with v = {qname}: degree 0 in v", ok_deg,
-                         f"scaling {qname} by s changes the addend by {sp.simplify(_scaled(e, qname, s) / e)}: the zone-centre limit depends on the length of the direction", line=line)
-            rep.instance("R08a", DYN, "get_dynmat_want", f"charge_sum[i, j][{a}][{b}] with v = {qname}: bilinear in the Born charges", ok_born,
-                         "the addend is not proportional to Z_i Z_j: zero Born charges do not switch the correction off", line=line, nontrivial=False)
+        bad_form, bad_deg, bad_born, sample = [], [], [], None
+        v = [sp.Function(qname)(k) for k in range(3)]
+        Z = sp.Function("born")
+        den = sum(v[p] * eps(p, q) * v[q] for p in range(3) for q in range(3))
+        for a in range(3):
+            for b in range(3):
+                e = cs.cell("charge_sum", i * n + j, a, b)
+                e = e.subs(sp.Symbol("factor"), factor)
+                e = e.subs({x: sp.Function(qname)(*x.args) for x in e.atoms(sp.Function) if x.func.__name__ == "q_cart"})
+                want = sp.Symbol("nac_factor") / N * sum(v[k] * Z(i, k, a) for k in range(3)) * sum(v[k] * Z(j, k, b) for k in range(3)) / den
+                if not eq0(e - want):
+                    bad_form.append((a, b, e))
+                if not eq0(_scaled(e, qname, s) - e):
+                    bad_deg.append((a, b))
+                if not eq0(_scaled(e, "born", s) - s**2 * e):
+                    bad_born.append((a, b))
+                sample = sample or str(e)[:300]
+        line = tu.line(c)
+        rep.instance("R08a", DYN, "get_dynmat_want", f"charge_sum[i, j][a][b] with v = {qname}: documented closed form for all 9 (a, b)", not bad_form,
+                     f"for (a, b) = {bad_form[0][:2] if bad_form else ''} the addend is {bad_form[0][2] if bad_form else ''}, not nac_factor/N (v.Z_i)_a (v.Z_j)_b / (v.eps.v)", line=line, sample={"vector": qname, "element": sample})
+        rep.instance("R08a", DYN, "get_dynmat_want", f"charge_sum[i, j][a][b] with v = {qname}: degree 0 in v for all 9 (a, b)", not bad_deg,
+                     f"scaling {qname} changes the addend for (a, b) in {bad_deg}: the zone-centre limit depends on the length of the direction", line=line)
+        rep.instance("R08a", DYN, "get_dynmat_want", f"charge_sum[i, j][a][b] with v = {qname}: bilinear in the Born charges for all 9 (a, b)", not bad_born,
+                     f"the addend is not proportional to Z_i Z_j for (a, b) in {bad_born}: zero Born charges do not switch the correction off", line=line, nontrivial=False)
     # which vector is used where: the direction at the zone centre, q itself elsewhere
     names = [cast.ref_name(cast.strip(cast.call_args(c)[3])) for c in calls]
     rep.instance("R08a", DYN, "get_dynmat_want", f"vectors handed to the charge sum: {names}", set(names) == {"q_dir_cart", "q_cart"}, "the zone-centre branch and the general branch do not use the direction / the q-point respectively", line=tu.line(want_fn))
@@ -147,11 +158,10 @@ def run(rep: core.Report):
     stt.local_arrays.add("KK")
     stt.block([dir_b])
     nvec = sp.Function("q_direction_cart")
-    for (a, b) in ((0, 0), (1, 2)):
-        e = stt.cell("KK", g, a, b)
-        want = nvec(a) * nvec(b) / sum(nvec(p) * eps(p, q) * nvec(q) for p in range(3) for q in range(3))
-        rep.instance("R08d", DYN, "get_dd", f"KK[g][{a}][{b}] at G + q = 0 with direction n == n_a n_b / (n.eps.n)", sp.simplify(e - want) == 0 and sp.simplify(_scaled(e, "q_direction_cart", s) - e) == 0,
-                     f"the zone-centre term of the reciprocal sum is {e}: it is not n_a n_b/(n.eps.n) or depends on the length of n", line=tu.line(gdd))
+    den_n = sum(nvec(p) * eps(p, q) * nvec(q) for p in range(3) for q in range(3))
+    bad_kk = [(a, b) for a in range(3) for b in range(3) if not (eq0(stt.cell("KK", g, a, b) - nvec(a) * nvec(b) / den_n) and eq0(_scaled(stt.cell("KK", g, a, b), "q_direction_cart", s) - stt.cell("KK", g, a, b)))]
+    rep.instance("R08d", DYN, "get_dd", "KK[g][a][b] at G + q = 0 with direction n == n_a n_b / (n.eps.n) for all 9 (a, b)", not bad_kk,
+                 f"the zone-centre term of the reciprocal sum is not n_a n_b/(n.eps.n) (or depends on the length of n) for (a, b) in {bad_kk}", line=tu.line(gdd))
     st0 = celem.State(ex, "get_dd", {"g": g}, {}, 0)
     st0.local_arrays.add("KK")
     zero_stmts = [y for y in cast.kids(none_b) if y.get("kind") != "ContinueStmt"] if none_b.get("kind") == "CompoundStmt" else [none_b]
@@ -159,11 +169,38 @@ def run(rep: core.Report):
     rep.instance("R08d", DYN, "get_dd", "KK[g] = 0 at G + q = 0 without a direction", all(st0.cell("KK", g, a, b) == 0 for a in range(3) for b in range(3)), "the G + q = 0 term is not dropped when no direction is given", line=tu.line(gdd))
     # bilinearity of multiply_borns and who writes dd
     mb = ex.function("multiply_borns_at_ij", scalars={"i": i, "j": j, "num_patom": n})
-    e0 = mb.cell("dd", i * n * 9 + 0 * n * 3 + j * 3 + 1, 0)
-    base = sp.Function("dd")(i * n * 9 + j * 3 + 1, 0)
-    contrib = sp.expand(e0 - base)
-    ok_bil = sp.simplify(_scaled(contrib, "born", s) - s**2 * contrib) == 0 and contrib != 0
-    rep.instance("R08d", DYN, "multiply_borns_at_ij", "dd[i,a,j,b] += sum_{a'b'} Z_i[a'][a] Z_j[b'][b] dd_in[i,a',j,b']", ok_bil, f"the Born-charge dressing is not bilinear in the charges (contribution {str(contrib)[:120]})", line=tu.line(tu.functions["multiply_borns_at_ij"]))
+    ddf, ddin, Zf = sp.Function("dd"), sp.Function("dd_in"), sp.Function("born")
+    bad_mb = []
+    for a in range(3):
+        for b in range(3):
+            adr = sp.expand(i * n * 9 + a * n * 3 + j * 3 + b)
+            for c_ in (0, 1):
+                got = mb.cell("dd", adr, c_)
+                want = ddf(adr, c_) + sum(Zf(i, a2, a) * Zf(j, b2, b) * ddin(sp.expand(i * n * 9 + a2 * n * 3 + j * 3 + b2), c_) for a2 in range(3) for b2 in range(3))
+                if sp.expand(got - want) != 0:
+                    bad_mb.append((a, b, c_))
+    written = {tuple(str(x) for x in pat) for pat, _, _ in mb.cells.get("dd", [])}
+    rep.instance("R08d", DYN, "multiply_borns_at_ij", "dd[i,a,j,b] += sum_{a'b'} Z_i[a'][a] Z_j[b'][b] dd_in[i,a',j,b'] for all 9 (a, b), real and imaginary part; 18 cells written", not bad_mb and len(written) == 18,
+                 f"the Born-charge dressing is not the documented bilinear form for (a, b, re/im) in {bad_mb[:4]} ({len(written)} cells written)", line=tu.line(tu.functions["multiply_borns_at_ij"]))
+    # one G point's contribution: dd_part[i,a,j,b] += KK[a][b] e^{2 pi i G.(r_i - r_j)}
+    tu_pi = cast.load(DYN, symbolize=("PI",))
+    ex_pi = celem.ElemExec(tu_pi, where=DYN, consts={"PI": sp.pi})
+    dg = ex_pi.function("get_dd_at_g", scalars={"i": i, "j": j, "num_patom": n})
+    ddp, KKf, posf, Gf = sp.Function("dd_part"), sp.Function("KK"), sp.Function("pos"), sp.Function("G")
+    phase = 2 * sp.pi * sum((posf(i, k_) - posf(j, k_)) * Gf(k_) for k_ in range(3))
+    bad_g = []
+    for a in range(3):
+        for b in range(3):
+            adr = sp.expand(i * n * 9 + a * n * 3 + j * 3 + b)
+            for c_, trig in ((0, sp.cos), (1, sp.sin)):
+                got = dg.cell("dd_part", adr, c_)
+                want = ddp(adr, c_) + KKf(a, b) * trig(phase)
+                d_ = sp.expand(got - want)
+                if d_ != 0 and sp.simplify(d_) != 0:
+                    bad_g.append((a, b, c_))
+    wr = {tuple(str(x) for x in pat) for pat, _, _ in dg.cells.get("dd_part", [])}
+    rep.instance("R08d", DYN, "get_dd_at_g", "dd_part[i,a,j,b] += KK[a][b] (cos, sin)(2 pi G.(r_i - r_j)) for all 9 (a, b); 18 cells written", not bad_g and len(wr) == 18,
+                 f"the contribution of one G point is not KK[a][b] e^(2 pi i G.(r_i - r_j)) for (a, b, re/im) in {bad_g[:4]} ({len(wr)} cells written)", line=tu.line(tu.functions["get_dd_at_g"]))
     rd = tu.functions.get("dym_get_recip_dipole_dipole")
     writers = [cast.callee_name(c) for c in cast.walk(rd) if c.get("kind") == "CallExpr" and cast.call_args(c) and cast.ref_name(cast.strip(cast.call_args(c)[0])) == "dd"]
     direct_w = [cast.text(cast.kids(x)[0]) for x in cast.walk(rd) if x.get("kind") in ("BinaryOperator", "CompoundAssignOperator") and x.get("opcode") in ("=", "+=", "-=", "*=") and cast.text(cast.kids(x)[0]).startswith("dd[")]
